@@ -22,8 +22,31 @@ run():
 PBKDF2 through the Lean driver: all cases in the thorough tier; in the quick tier every case whose cost
 (iterations x blocks x long-key factor) is <= 2000 and every 5th of the rest — hashlib covers all of them in both tiers.
 
-Self-test 2026-09-23 (single edits in a scratch copy, `VERIF_REPO=/tmp/c19mut ./check C19 --tier quick`; every exit 1
-came with concrete replay cases; see the table at the end of this docstring, filled in from the actual runs).
+Self-test 2026-09-23 (single edits in a scratch copy of /repo/src, `VERIF_REPO=/tmp/c19mut ./check C19 --tier quick`; every
+exit 1 came with concrete replay cases (the case dict of the first failing input per key); a replay of M5's case gives exit 1
+on the mutated copy and exit 0 on /repo):
+  M1  compute_wcs: hashlib.sha256 -> sha1                      exit 1  wcs-differs-from-base64-hmac-sha256, cra-signature-differs-from-wamp-cra
+  M2  compute_totp: interval = -offset + ...                   exit 1  totp-code-differs-from-rfc6238, check-totp-rejects-inside-window
+  M3  truncation mask 0x7FFFFFFF -> 0xFFFFFFFF                 exit 1  totp-code-differs-from-rfc6238, check-totp-rejects-inside-window
+  M4  on_welcome: comparison skipped (if False and ...)        exit 1  scram-welcome-accepts-wrong-server-signature
+  M5  on_welcome: server_signature.startswith(alleged)         exit 1  scram-welcome-accepts-wrong-server-signature (empty / prefix16 / prefix31)
+  M6  client key derived with b"Server Key"                    exit 1  scram-client-proof-differs, scram-proof-rejected-by-server-with-same-salted-password
+  M7  cryptosign: tls-unique branch signs challenge_raw        exit 1  cryptosign-signed-data-differs-channel-binding, cryptosign-signature-rejected-by-openssl-ed25519, cryptosign-alteration-same-signature, cryptosign-answer-format
+  M8  check_totp: offsets [0, 1, -1, 2]                        exit 1  check-totp-accepts-outside-window
+  M9  util.xor leaves the last octet                           exit 1  xor-differs-from-octetwise-xor, cryptosign-signed-data-differs-channel-binding, scram-client-proof-differs, ...
+  M10 derive_key without .strip()                              exit 1  derive-key-differs-from-base64-pbkdf2, cra-signature-differs-from-wamp-cra
+  M11 cryptosign answer = data_hex + signature_hex             exit 1  cryptosign-signed-data-differs, cryptosign-signature-rejected-by-openssl-ed25519, cryptosign-answer-format
+  M12 TOTP offset nibble from digest[0]                        exit 1  totp-code-differs-from-rfc6238, check-totp-rejects-inside-window
+  M13 WAMP-CRA salted key = raw PBKDF2 octets (not base64)     exit 1  cra-signature-differs-from-wamp-cra
+  M14 server key derived with b"Client Key"                    exit 1  scram-welcome-rejects-genuine-server-signature, scram-welcome-accepts-wrong-server-signature
+  M15 pbkdf2: iterations + 1                                   exit 1  pbkdf2-differs-from-pbkdf2-hmac-sha256, derive-key-differs-from-base64-pbkdf2, cra-signature-differs-from-wamp-cra
+  M16 auth message without the channel binding                 exit 1  scram-auth-message-differs, scram-client-proof-differs, scram-proof-rejected-by-server-with-same-salted-password
+  M17 check_totp: offsets [0, 1]                               exit 1  check-totp-rejects-inside-window, check-totp-outcome
+  M18 on_welcome: compare only if len(alleged) == 32           exit 1  scram-welcome-accepts-wrong-server-signature
+  H1  compute_wcs via hmac.digest / base64.b64encode           exit 0
+  H2  check_totp as any(...)                                   exit 0
+  H3  on_welcome compares bytes with ==                        exit 0
+(the four KNOWN-FINDING lines are printed in every run, mutated or not)
 """
 import base64
 import hashlib
@@ -89,6 +112,9 @@ MANIFEST_ENTRY = {
 ITERS = [1, 2, 1000, 4096]
 KEYLENS = [1, 16, 20, 32, 33, 64]
 RFC_TOTP_KEY = b"12345678901234567890"
+# RFC 6238 appendix B, SHA-1 rows: time -> low six digits of the 8-digit value
+RFC6238_ROWS = {"59": "287082", "1111111109": "081804", "1111111111": "050471", "1234567890": "005924",
+                "2000000000": "279037", "20000000000": "353130"}
 
 
 def hx(b):
@@ -184,6 +210,18 @@ def gen_cases(ctx):
     cases.append({"op": "pbkdf2", "data": b"passwordPASSWORDpassword".hex(), "salt": b"saltSALTsaltSALTsaltSALTsaltSALTsalt".hex(),
                   "iterations": 4096, "keylen": 40})
     cases.append({"op": "pbkdf2", "data": b"pass\0word".hex(), "salt": b"sa\0lt".hex(), "iterations": 4096, "keylen": 16})
+    # published vectors, judged against the literal value as well (typed from the documents, not computed)
+    for d, sa, it, kl, lit, src in (
+            (b"password", b"salt", 1, 32, "120fb6cffcf8b32c43e7225256c4f837a86548c92ccc35480805987cb70be17b", "PBKDF2-HMAC-SHA256 companion of RFC 6070 #1"),
+            (b"password", b"salt", 2, 32, "ae4d0c95af6b46d32d0adff928f06dd02a303f8ef3c251dfd6e2d85a95474c43", "companion of RFC 6070 #2"),
+            (b"password", b"salt", 4096, 32, "c5e478d59288c841aa530db6845c4c8d962893a001ce4e11a4963873aa98134a", "companion of RFC 6070 #3"),
+            (b"passwd", b"salt", 1, 64, "55ac046e56e3089fec1691c22544b605f94185216dde0465e68b9d57c20dacbc49ca9cccf179b645991664b39d77ef317c71b845b1e30bd509112041d3a19783", "RFC 7914 section 11 #1")):
+        cases.append({"op": "pbkdf2", "data": d.hex(), "salt": sa.hex(), "iterations": it, "keylen": kl, "literal": lit, "source": src})
+    for key, msg, lit, src in (
+            (b"\x0b" * 20, b"Hi There", "b0344c61d8db38535ca8afceaf0bf12b881dc200c9833da726e9376c2e32cff7", "RFC 4231 test case 1"),
+            (b"Jefe", b"what do ya want for nothing?", "5bdcc146bf60754e6a042426089575c75a003f089d2739839dec58b964ec3843", "RFC 4231 test case 2"),
+            (b"\xaa" * 131, b"Test Using Larger Than Block-Size Key - Hash Key First", "60e431591ee0b67f0d8a26aacbf5b77f8e0bc6213728c5140546040f0ee37f54", "RFC 4231 test case 6")):
+        cases.append({"op": "wcs", "key": key.hex(), "challenge": msg.hex(), "literal": base64.b64encode(bytes.fromhex(lit)).decode(), "source": src})
     # --- derive_key (bytes and str), with alteration of secret/salt/iterations on some
     k = 0
     for t in texts:
@@ -415,6 +453,8 @@ def judge_simple(J, cases, results):
             res.count(f"pbkdf2:iters={c['iterations']}")
             res.count(f"pbkdf2:keylen={c['keylen']}")
             res.count(f"pbkdf2:saltlen={len(salt) // 16 * 16}+")
+            if "literal" in c and got != ("ok", c["literal"]):
+                J.violation("pbkdf2-differs-from-pbkdf2-hmac-sha256", f"pbkdf2 differs from the published vector ({c['source']})", c, got)
             if got != ref:
                 J.violation("pbkdf2-differs-from-pbkdf2-hmac-sha256", f"pbkdf2(iters={c['iterations']}, keylen={c['keylen']}, "
                             f"|salt|={len(salt)}, |data|={len(data)}) = {got[1][:32]}.., RFC 8018 gives {ref[1][:32]}..", c, got)
@@ -463,6 +503,8 @@ def judge_simple(J, cases, results):
             ref = ("ok", ref_wcs(key, ch))
             got = impl_text(r)
             res.count(f"wcs:keylen={'0' if not key else '<=64' if len(key) <= 64 else '>64'}")
+            if "literal" in c and got != ("ok", c["literal"]):
+                J.violation("wcs-differs-from-base64-hmac-sha256", f"compute_wcs differs from the published vector ({c['source']})", c, got)
             if got != ref:
                 J.violation("wcs-differs-from-base64-hmac-sha256", f"compute_wcs = {got}, HMAC-SHA256 gives {ref}", c, got)
             if r.get("flips"):
@@ -584,6 +626,12 @@ def judge_totp(J, cases, results):
             tick.append((ticket, got, ref))
             res.evaluations += 1
             res.count("totp_check:" + (str(ref[1])))
+
+        if secret == "GEZDGNBVGY3TQOJQGEZDGNBVGY3TQOJQ" and c["now"] in RFC6238_ROWS and "0" in offs_got:
+            res.count("totp:rfc6238-literal-row")
+            if offs_got["0"] != ("ok", RFC6238_ROWS[c["now"]]):
+                J.violation("totp-code-differs-from-rfc6238", f"compute_totp at t={c['now']} = {offs_got['0']}, RFC 6238 appendix B gives "
+                            f"..{RFC6238_ROWS[c['now']]}", dict(c, offsets=[0], tickets=[]), offs_got["0"])
 
         def cb(ans, c=c, expect=expect, tick=tick):
             for (o, got, ref), a in zip(expect, ans):
@@ -866,7 +914,8 @@ def run(ctx):
         "seeds (RFC 8032 key, zero, ones, random) x binding on/off x channel ids x key/authenticator entry points x hex case, all 512+256 "
         "single-bit alterations of signature and data, all 256+256 of challenge and channel id, malformed challenges/ids/methods. "
         "non-trivial = distinct (op, arguments) that reached a comparison with the Spec")
-    reference_selftest(ctx, res)
+    if not ctx.replay_path:
+        reference_selftest(ctx, res)
     if ctx.replay_path:
         rp = json.loads(Path(ctx.replay_path).read_text())["replay"]
         rp.pop("observed", None)
